@@ -410,6 +410,30 @@ Section PROGS.
 
 End PROGS.
 
+Lemma makedirs_p_unfold : forall A fuel ok p (k : fres unit -> prog A),
+  makedirs_p (S fuel) ok p k =
+  let leaf :=
+    Do (CMkdir p) (fun r =>
+      match r with
+      | FOk _ => k (FOk tt)
+      | FErr e =>
+          if ok then Do (CStat p) (fun r2 => if is_dir_r r2 then k (FOk tt) else k (FErr e))
+          else k (FErr e)
+      end) in
+  match parent p with
+  | [] | [_] => leaf
+  | hd =>
+      Do (CStat hd) (fun rh =>
+        if exists_r rh then leaf
+        else makedirs_p fuel ok hd (fun r =>
+               match r with
+               | FOk _ | FErr EEXIST => leaf
+               | FErr e => k (FErr e)
+               end))
+  end.
+Proof. reflexivity. Qed.
+
+
 (* ------------------------------------------------------------------ operations of C11 *)
 Inductive cop :=
 | KInit (ws : path) (sp : json) (force : bool)
@@ -641,3 +665,21 @@ Section ACTORS.
     | a :: rest => act_prog a (fun o => actor_prog rest (o :: acc))
     end.
 End ACTORS.
+
+(* ------------------------------------------------------------------ valid workspaces *)
+(* The pre-states the theorems speak about: a well-formed tree (unique keys, every entry sits in a
+   directory), the workspaces of the scenario are directories of equal depth, and every listed job
+   directory validates. *)
+Definition WInv (frepr : fl -> str) (wss : list path) (f0 : fs) : Prop :=
+  NoDup (map fst f0) /\ ~ In [] (map fst f0) /\
+  (forall p, get f0 p <> None -> get f0 (parent p) = Some Dir) /\
+  (forall a b, In a wss -> In b wss -> length a = length b) /\
+  (forall ws, In ws wss -> get f0 ws = Some Dir /\
+                           forall i, In i (job_dirs f0 ws) -> validates frepr f0 ws i = true).
+
+(* the workspaces an operation works in *)
+Definition op_wss (o : cop) : list path :=
+  match o with
+  | KInit ws _ _ | KRekey ws _ _ | KRemove ws _ | KClear ws _ => [ws]
+  | KMove ws _ dws | KClone ws _ dws => [ws; dws]
+  end.
